@@ -32,7 +32,7 @@ type Opts struct {
 	SmallInt bool
 }
 
-var hotRunes = []rune{'"', '\\', '\n', '\r', '\t', '¬', '{', '}', ';', '$', '(', ')', '[', ']', '~', '@', '^', '\'', '`', ':', '#', '«', '»', ' ', ',', 0xFEFF, 'n', 'é', '世', 0x1F600, '€', 'ì', '笑', 0xAC, 0xC2, 0x29e + 64, 0xA0, 0x7f, 0x1b}
+var hotRunes = []rune{'"', '\\', '\n', '\r', '\t', '¬', '{', '}', ';', '$', '(', ')', '[', ']', '~', '@', '^', '\'', '`', ':', '#', '«', '»', ' ', ',', 0xFEFF, 'n', 'é', '世', 0x1F600, '€', 'ì', '笑', 0xAC, 0xC2, 0x29e + 64, 0xA0, 0x7f, 0x1b, '²', '½', 'Ⅷ', '①', '٣', '፩', '_', '-'}
 
 var hotStrings = []string{
 	`{"k": "v"}`, "{\"k\":\n 1}", `{"a¬b"}`, `{"`, `"}`, `{"}`, ";; $x 1", "$x", "$1", `\n`, `\\`, `\"`, `\`, "¬¬", "¬", "a\\", "\\\"", "nil", "true", "(+ 1 2)", "; c", "\r\n", `{"x": "¬"}`, "{\"k\": \"v\"}\n",
